@@ -14,6 +14,9 @@
      case <id>
      front ok | notutf8 | lexpanic <site> <pos> | lexfuel | parsefuel
      tokens <number of tokens> pulled <n> lexed_all 0|1 lexdiags_all <n>
+     numlit 1|0             every Number token's payload is digits or digits '.' digits
+                            (Pipeline.tok_number_ok: the texts on which NumParse.to_number is proved
+                            to be the correctly rounded decimal, never the NaN fallback)
      ldiag <message_> <start> <end>                    reported lexical diagnostics
      sdiag <message_> <start> <end> <label hex>        syntax diagnostics
      viol <rule> <category hex> <path>                 broken static rules
@@ -271,6 +274,7 @@ let one_case oc eps fuel (id : string) (src : z list) (impl_ast : stmt list opti
          let p = d.fd_parsed in
          Printf.fprintf oc "tokens %d pulled %d lexed_all %d lexdiags_all %d\n" (List.length d.fd_tokens)
            (int_of_nat p.p_pulled) (if p.p_lexed_all then 1 else 0) (List.length d.fd_lex_all);
+         Printf.fprintf oc "numlit %d\n" (if List.for_all tok_number_ok d.fd_tokens then 1 else 0);
          List.iter (fun (dg : diag) ->
            Printf.fprintf oc "ldiag %s %d %d\n" (underscored (text (lexerr_msg dg.d_err)))
              (int_of_nat dg.d_start) (int_of_nat dg.d_end)) d.fd_lex;
